@@ -81,20 +81,6 @@ func NewEngine(c *shim.Core, cfg string) *Engine {
 	e := &Engine{C: c, V: NewView(), Obs: map[string]int64{}, Props: map[string]bool{}, ConfigYAML: cfg, Configs: []string{cfg}, quotaPreemptionEnabled: strings.Contains(cfg, "quotapreemptionenabled: true"),
 		Hist:           &History{NodeForced: map[string]bool{}, Preempted: map[string]int{}, AppStates: map[string][]string{}, States: map[string]bool{}},
 		barrierTimeout: 20 * time.Second}
-	// explicit predicate denials requested by operations come before the seeded answers of the case
-	base := c.S.Pred
-	c.S.Pred = func(key, node string, allocate bool) bool {
-		e.predMu.Lock()
-		denied := e.predDeny[key+"|"+node]
-		e.predMu.Unlock()
-		if denied {
-			return false
-		}
-		if base == nil {
-			return true
-		}
-		return base(key, node, allocate)
-	}
 	return e
 }
 
@@ -156,6 +142,20 @@ func (e *Engine) settle() bool {
 
 // Init takes the first snapshot.
 func (e *Engine) Init() bool {
+	// explicit predicate denials requested by operations come before the seeded answers of the case
+	base := e.C.S.Pred
+	e.C.S.Pred = func(key, node string, allocate bool) bool {
+		e.predMu.Lock()
+		denied := e.predDeny[key+"|"+node]
+		e.predMu.Unlock()
+		if denied {
+			return false
+		}
+		if base == nil {
+			return true
+		}
+		return base(key, node, allocate)
+	}
 	if !e.settle() {
 		return false
 	}
